@@ -142,6 +142,29 @@ def run(data):
                                   "what": f"after {text!r} had been deserialised as prefix+symbol and was then registered as a new unit's symbol, the quantity comes back in another unit"})
         except Exception as ex:  # noqa
             fails.append({"codec": "late", "kind": "quantity", "object": [ps, us, dim], "what": "raised " + implib.errclass(ex) + ": " + str(ex)[:100], "unit_text_ok": True})
+    # documents taken BEFORE an object was named, read back afterwards: the live object keeps its name and symbol
+    from measured.si import Meter, Second
+    from measured import Length, Time
+    stale = [("unit", lambda: Meter ** 7 / Second ** 5, lambda o: Unit.derive(o, "vf stale unit", "vfsu"), lambda: Unit.named("vf stale unit")),
+             ("unit", lambda: Prefix(10, 3) * Meter ** 5 / Second ** 7, lambda o: o.alias(name="vf stale alias", symbol="vfsa"), lambda: Unit.named("vf stale alias")),
+             ("dimension", lambda: Length ** 7 / Time ** 5, lambda o: Dimension.derive(o, "vf stale dimension", "VFSD"), lambda: Dimension._by_name["vf stale dimension"]),
+             ("prefix", lambda: Prefix(10, 37), lambda o: Prefix(10, 37, name="vfstale", symbol="vfsp"), lambda: Prefix._by_name["vfstale"])]
+    for kind, make, name_it, lookup in stale:
+        try:
+            o = make()
+            blobs = [("pickle", pickle.dumps(o)), ("pickle-2", pickle.dumps(o, protocol=2)), ("json", json.dumps(o, cls=MeasuredJSONEncoder))]
+            name_it(o)
+            want = (getattr(o, "name", None), getattr(o, "symbol", None))
+            for codec, blob in blobs:
+                counts[f"stale:{codec}"] = counts.get(f"stale:{codec}", 0) + 1
+                case_ids.append(f"stale:{kind}:{codec}:{want[0]}")
+                r = pickle.loads(blob) if codec.startswith("pickle") else json.loads(blob, cls=MeasuredJSONDecoder)
+                got = (getattr(o, "name", None), getattr(o, "symbol", None))
+                if r is not o or got != want or lookup() is not o or want[0] is None:
+                    fails.append({"codec": codec, "kind": kind, "object": describe(o), "got": describe(r), "unit_text_ok": True,
+                                  "what": f"a document taken before the {kind} was named {want} was read back afterwards: the live object now reports {got}"})
+        except Exception as ex:  # noqa
+            fails.append({"codec": "stale", "kind": kind, "object": kind, "what": "raised " + implib.errclass(ex) + ": " + str(ex)[:100], "unit_text_ok": True})
     return {"counts": counts, "fails": fails, "case_ids": case_ids, "registered": {"dimensions": len(Dimension._known), "prefixes": len(Prefix._known), "units": len(Unit._known)}}
 
 implib.main_io(run)
